@@ -416,6 +416,48 @@ HPS = ["app_1.ex:1965", "app-1.ex:1965", "app_1.ex:1966", "app_1.ex.:1965"]
 KEY = {"app_1.ex:1965": "a", "app-1.ex:1965": "b", "app_1.ex:1966": "c", "app_1.ex.:1965": "d"}
 
 
+def nonascii_host_names(rep, own):
+    """Host names with non-ASCII letters (IDNs written in Unicode): the name a pin is stored under by a trust command or an
+    import may be capitalised; it is still the pin of the host connections are made to.  (Case folding of the store has to
+    agree with the case folding of the URL parser for every letter, not only for A-Z.)"""
+    n = 0
+    for low, cap in (("\u00e9cole.ex", "\u00c9COLE.EX"), ("\u00f6kologie.ex", "\u00d6kologie.ex"), ("\u043f\u0440\u0438\u043c\u0435\u0440.ex", "\u041f\u0420\u0418\u041c\u0415\u0420.ex"),
+                     ("\uff4cocalhost.ex", "\uff2cocalhost.ex")):
+        for via in ("trust", "import"):
+            for ep in ("get", "upload"):
+                hp = low + ":1965"
+                w = World({hp: "c1"}, True, [hp])
+                try:
+                    host, port = split_hp(hp)
+                    if via == "trust":
+                        w.db0.trust(cap, port, x509.load_der_x509_certificate(DER["c1"]))
+                    else:
+                        import tomli_w
+                        from pathlib import Path
+                        p_ = os.path.join(w.dir, "imp.toml")
+                        with open(p_, "wb") as f:
+                            tomli_w.dump({"hosts": {"k": {"hostname": cap, "port": port, "fingerprint": FP["c1"],
+                                                          "first_seen": "2025-01-01T00:00:00+00:00", "last_seen": "2025-01-01T00:00:00+00:00"}}}, f)
+                        w.db0.import_toml(Path(p_), merge=True)
+                    w.presents[hp] = "c2"                      # the host now presents another certificate
+                    url = ("gemini://%s:%d/page?q=SECRETQUERY" if ep == "get" else "gemini://%s:%d/up.gmi") % (cap, port)
+                    res = w.call(w.client.get(url) if ep == "get" else w.client.upload(url, b"SECRETCONTENT", token="SECRETTOKEN"))
+                    n += 1
+                    got_bytes = bool(w.conn_bytes and w.conn_bytes[-1][1])
+                    if res["ok"] or res["err"] != "changed" or got_bytes:
+                        bad = "ChangedFails" if "ChangedFails" in own else ("NothingToUnverified" if "NothingToUnverified" in own else None)
+                        desc = "host %r pinned (through %s) to c1 under the spelling %r; it now presents c2; %s of %r: ok=%s err=%s, request bytes reached the peer: %s, pins now %s" % (
+                            low, via, cap, ep, url, res["ok"], res["err"], got_bytes, sorted((r_["hostname"], r_["fingerprint"][:14]) for r_ in w.db0.list_hosts()))
+                        if bad:
+                            rep.violation({"formula": bad, "nonascii_host": True, "via": via}, "%s falsified: %s" % (bad, desc), None)
+                        else:
+                            rep.drifted("non-ASCII host name: " + desc)
+                finally:
+                    w.close()
+    rep.add("nonascii_host_name_calls", n)
+    rep.add("traces_validated_against_impl", n)
+
+
 def random_history_traces(rep, rnd, count, own):
     """B2: long random histories (generated here, not by TLC) on one real client; recorded and validated by TLC against
     TofuTrace - conformance of every step and every invariant at every step."""
@@ -618,6 +660,7 @@ def main(pid="C03", rep=None, finish=True):
                             "final_pins": sts[-1]["pins"]})
         rep.add("behaviours_replayed", nb)
         random_history_traces(rep, random.Random(rep.seed * 3 + 33), 400 if thorough else 80, own)
+        nonascii_host_names(rep, own)
         # the command line front end: `nauyaca get` keeps trust-on-first-use on unless told otherwise (spec/ClientCli.tla)
         from checks import clientcli
         clientcli.main(pid, rep=rep, finish=False)
